@@ -180,6 +180,11 @@ def text_wellformed(src):
                                                                "\tGib p als Hausnummer zurück.\nUnd kann so benutzt werden:\n\t\"gib_td <p>\"\nDie Hausnummer hn2 ist gib_td 4.\n"),
                           ("typedef-list", "Die Hausnummer Liste hl ist eine Liste, die aus hn_ok, (2 als Hausnummer) besteht.\n")]:
         out.append((kind, src + TD + snippet))
+    # the counterparts of the redeclaration mutants: the same declarations with two different names
+    out.append(("names-foreach-index", src + "Für jede Zahl rd_e mit Index rd_i in eine Liste, die aus 10, 20 besteht, mache:\n\tSchreibe (rd_e plus rd_i).\n"))
+    out.append(("names-fields", src + 'Wir nennen die Kombination aus\n\tder Zahl rd_a mit Standardwert 1,\n\tder Zahl rd_b mit Standardwert 2,\neinen Rdpaar, und erstellen sie so:\n\t"ein Rdpaar"\n'))
+    out.append(("names-parameters", src + "Die Funktion rd_fn mit den Parametern rd_p und rd_q vom Typ Zahl und Zahl, gibt eine Zahl zurück, macht:\n\tGib rd_p plus rd_q zurück.\n"
+                                          "Und kann so benutzt werden:\n\t\"rd_fn <rd_p> <rd_q>\"\n"))
     return out
 
 
@@ -209,6 +214,12 @@ def text_mutants(src, rng):
             out.append((kind, "\n".join(m)))
     out.append(("wrong-article-standardwert", src + "Die Zahl sw_z ist der Standardwert von einem Zahl.\n"))
     out.append(("wrong-article-parameter-less", src + "Der Zahl falsch_dekl ist 1.\n"))
+    # redeclaration in one scope, at the declaration sites that are not statements of a block: the index of a for-each loop named
+    # like its element, two fields of one Kombination, two parameters of one function
+    out.append(("redeclaration-foreach-index", src + "Für jede Zahl rd_e mit Index rd_e in eine Liste, die aus 10, 20 besteht, mache:\n\tSchreibe rd_e.\n"))
+    out.append(("redeclaration-field", src + 'Wir nennen die Kombination aus\n\tder Zahl rd_a mit Standardwert 1,\n\tder Zahl rd_a mit Standardwert 2,\neinen Rdpaar, und erstellen sie so:\n\t"ein Rdpaar"\n'))
+    out.append(("redeclaration-parameter", src + "Die Funktion rd_fn mit den Parametern rd_p und rd_p vom Typ Zahl und Zahl, gibt eine Zahl zurück, macht:\n\tGib rd_p zurück.\n"
+                                                 "Und kann so benutzt werden:\n\t\"rd_fn <rd_p> <rd_p>\"\n"))
     # a Konstante is assigned to / passed as Referenz / element-assigned
     out.append(("assign-to-konstante", src + "Die Konstante KONST_A ist 5.\nSpeichere 6 in KONST_A.\n"))
     out.append(("compound-assign-to-konstante", src + "Die Konstante KONST_B ist 5.\nErhöhe KONST_B um 1.\n"))
